@@ -539,3 +539,44 @@ func freeVarStored(fn *ssa.Function, fv *ssa.FreeVar) bool {
 	}
 	return false
 }
+
+// ParamOf: v is the parameter prm itself, a load of the heap cell a captured parameter was moved
+// to, or - inside a closure - a load of the free variable bound to that cell (nothing else is ever
+// stored into the cell).  Returns nil otherwise.
+func ParamOf(v ssa.Value) *ssa.Parameter {
+	switch x := v.(type) {
+	case *ssa.Parameter:
+		return x
+	case *ssa.UnOp:
+		if x.Op != token.MUL {
+			return nil
+		}
+		switch a := x.X.(type) {
+		case *ssa.Alloc:
+			return spilledParam(a)
+		case *ssa.FreeVar:
+			fn := a.Parent()
+			if fn == nil || fn.Parent() == nil {
+				return nil
+			}
+			idx := -1
+			for i, fv := range fn.FreeVars {
+				if fv == a {
+					idx = i
+				}
+			}
+			var prm *ssa.Parameter
+			Instrs(fn.Parent(), func(in ssa.Instruction) {
+				mc, ok := in.(*ssa.MakeClosure)
+				if !ok || mc.Fn != ssa.Value(fn) || idx < 0 || idx >= len(mc.Bindings) {
+					return
+				}
+				if al, ok := mc.Bindings[idx].(*ssa.Alloc); ok {
+					prm = spilledParam(al)
+				}
+			})
+			return prm
+		}
+	}
+	return nil
+}
